@@ -17,12 +17,21 @@ returned by the callback"), kept visible as `callback_none`.
 namespace SecsModel.Props.C08
 open SecsModel SecsModel.Spec.E30Comm SecsModel.Model.SecsHandle SecsModel.Proofs.SecsHandle
 
-/-- "while communication is established": selected link, COMMUNICATING, and nobody is waiting for these system bytes
-(a message whose system bytes match an open transaction is a reply to *our* primary, not a primary) -/
+/-- "while communication is established": selected link, COMMUNICATING; and — only for an even function, which is a reply and
+not a primary — nobody is waiting for these system bytes (an even-function message whose system bytes match an open
+transaction is the reply to *our* primary).  An odd-function primary needs no such hypothesis: it is dispatched whatever
+system bytes it carries. -/
 structure Established (env : Env) (m : Msg) : Prop where
   sel : env.selected = true
   comm : env.comm = .communicating
-  fresh : env.waiting.contains m.sys = false
+  fresh : m.f % 2 = 0 → env.waiting.contains m.sys = false
+
+theorem not_toWaiter {env : Env} {m : Msg} (he : Established env m) : toWaiter env m = false := by
+  rw [toWaiter_eq]
+  by_cases h : m.f % 2 = 0
+  · have hw : m.sys ∉ env.waiting := by simpa using he.fresh h
+    simp [hw]
+  · simp [h]
 
 /-- the one reply the property names -/
 def expected (env : Env) (m : Msg) : Frame :=
@@ -41,7 +50,8 @@ def Covered (env : Env) (m : Msg) : Prop :=
 theorem exactly_one (env : Env) (m : Msg) (he : Established env m) (hw : m.w = true)
     (h95 : catalogued env 9 5 = true) (hc : Covered env m) :
     handle env m = [expected env m] ∧ (expected env m).sys = m.sys ∧ (expected env m).isData = true := by
-  obtain ⟨hs, hcm, hf⟩ := he
+  have hf := not_toWaiter he
+  obtain ⟨hs, hcm, _⟩ := he
   refine ⟨?_, ?_, ?_⟩
   · unfold handle handleStreamFunction expected
     simp only [hs, hf, hcm, dispatches_eq, Bool.not_true, Bool.false_eq_true, if_false, decide_true, if_true]
@@ -98,7 +108,10 @@ example : handle { eq with outcome := fun _ => .reply 1 4 } ⟨1, 3, true, 7, []
 example : handle { eq with outcome := fun _ => .raises } ⟨1, 3, true, 7, []⟩ = [.data 1 0 false 7 .empty] := by decide +kernel
 example : handle eq ⟨99, 1, true, 7, [0, 0, 227, 1, 0, 0, 0, 0, 0, 7]⟩ = [.data 9 5 false 7 (.header [0, 0, 227, 1, 0, 0, 0, 0, 0, 7])] := by
   decide +kernel
-example : Established eq ⟨1, 3, true, 7, []⟩ := ⟨rfl, rfl, rfl⟩
+example : Established eq ⟨1, 3, true, 7, []⟩ := ⟨rfl, rfl, by decide⟩
+/-- a primary that carries the system bytes of an open transaction of ours is answered like any other -/
+example : handle { eq with waiting := [7], outcome := fun _ => .reply 1 4 } ⟨1, 3, true, 7, []⟩ = [.data 1 4 false 7 .fn] ∧
+    handle { eq with waiting := [7] } ⟨1, 4, false, 7, []⟩ = [] := by decide +kernel
 
 /-- non-vacuity of `exactly_one_builtin`: the hypotheses hold for S1F3 on the equipment class -/
 example : eq.catalogue = Gen.Callbacks.catalogue ∧ eq.builtin = Gen.Callbacks.builtinGemEquipmentHandler ∧ ((1, 3) : Nat × Nat) ∈ eq.builtin := by
@@ -218,8 +231,8 @@ theorem callback_none (env : Env) (m : Msg) (hcb : hasCallback env m.s m.f = tru
 theorem callback_reply_then_raise (env : Env) (m : Msg) (he : Established env m) (hcb : hasCallback env m.s m.f = true)
     (s f : Nat) (ho : env.outcome m = .replyThenRaises s f) (h0 : catalogued env m.s 0 = true) (hw : m.w = true) :
     handle env m = [.data s f false m.sys .fn, .data m.s 0 false m.sys .empty] := by
-  obtain ⟨hs, hcm, hf⟩ := he
-  have hf' : m.sys ∉ env.waiting := by simpa using hf
+  have hf' := not_toWaiter he
+  obtain ⟨hs, hcm, _⟩ := he
   simp [handle, handleStreamFunction, hs, hf', hcm, dispatches_eq, hcb, ho, abort, abortFunction_eq, h0, hw]
 
 /-- while not COMMUNICATING nothing reaches `_handle_stream_function` -/
